@@ -2,6 +2,7 @@ package main
 
 import (
 	"bufio"
+	"bytes"
 	"encoding/json"
 	"fmt"
 	"os"
@@ -32,6 +33,13 @@ func (t *Trace) Emit(ev M) {
 	b, err := json.Marshal(ev)
 	if err != nil {
 		panic(fmt.Sprintf("trace marshal: %v", err))
+	}
+	if bytes.Contains(b, []byte("null")) {
+		// TLC's Json module has no null: nil slices become empty sequences
+		var v interface{}
+		if json.Unmarshal(b, &v) == nil {
+			b, _ = json.Marshal(denull(v))
+		}
 	}
 	t.mu.Lock()
 	t.w.Write(b)
@@ -68,6 +76,24 @@ func clampInt(v uint64) int {
 func clampSigned(v int) int {
 	if v < 0 || v > 0x7fffffff {
 		return -1
+	}
+	return v
+}
+
+func denull(v interface{}) interface{} {
+	switch x := v.(type) {
+	case nil:
+		return []interface{}{}
+	case map[string]interface{}:
+		for k, y := range x {
+			x[k] = denull(y)
+		}
+		return x
+	case []interface{}:
+		for i, y := range x {
+			x[i] = denull(y)
+		}
+		return x
 	}
 	return v
 }
